@@ -211,4 +211,4 @@ func verifLMOps(steps int) {
 
 func VH_C12_ops() { verifLMOps(4) }
 
-func VH_C12_ops_T() { verifLMOps(6) }
+func VH_C12_ops_T() { verifLMOps(5) }
